@@ -500,6 +500,132 @@ Qed.
 Lemma ffrac_split x n : 0 <= x -> to_u64_checked x = Ok n -> x = n * ONE + ffrac x /\ 0 <= ffrac x /\ 0 <= n.
 Proof.
   intros Hx H. apply to_u64_inv in H as (-> & Hr). pose proof ONE_pos as HO.
-  unfold ffrac. pose proof (Z.div_mod x ONE ltac:(lia)). pose proof (Z.mod_pos_bound x ONE HO).
-  rewrite ffrac_nonneg_val by lia. lia.
+  unfold ffrac. pose proof (Z.div_mod x ONE ltac:(lia)). pose proof (Z.mod_pos_bound x ONE HO). lia.
+Qed.
+
+(* a primitive on a located slot keeps the bank well-formed; the two flavours *)
+Lemma dec_step hb bk bl now delta t bk' bl' :
+  hb_ok (set_hb_b bk hb) -> wf_bal bl -> 0 <= delta -> bl_a bl <= b_tas bk ->
+  decrease_balance bk bl now delta t = Ok (bk', bl') ->
+  hb_ok (set_hb_b bk' hb) /\ wf_bal bl' /\ delta * ONE - b_asv bk - b_lsv bk < NAV bk - NAV bk' /\
+  b_asv bk' = b_asv bk /\ b_lsv bk' = b_lsv bk /\ b_tls bk <= b_tls bk' /\ b_tas bk' <= b_tas bk /\
+  b_ins bk' = b_ins bk /\ b_grp bk' = b_grp bk /\ b_prog bk' = b_prog bk /\
+  bl_active bl' = bl_active bl /\ bl_bank bl' = bl_bank bl.
+Proof.
+  intros Hok Wbl Hd La Hdec. pose proof (hb_ok_sv _ Hok) as Hsv. cbn [set_hb_b hb_b] in Hsv.
+  destruct (NAV_decrease _ _ _ _ _ _ _ Hsv Wbl Hd Hdec) as (N1 & Wbl2).
+  pose proof (decrease_balance_inv _ _ _ _ _ _ _ Hsv Wbl Hd Hdec) as F.
+  destruct (df_sv _ _ _ _ _ _ F) as [S1 S2]. destruct (df_fees _ _ _ _ _ _ F) as (I2 & G2 & P2).
+  destruct (df_meta _ _ _ _ _ _ F) as (M1 & M2 & _).
+  pose proof (df_a _ _ _ _ _ _ F) as Fa. pose proof (df_l _ _ _ _ _ _ F) as Fl.
+  pose proof (df_tas _ _ _ _ _ _ F) as Fta. pose proof (df_tls _ _ _ _ _ _ F) as Ftl.
+  destruct Wbl as [Wa Wl]. pose proof Wbl2 as [Wa2 Wl2]. destruct (hb_ok_tot _ Hok) as (T1 & T2). cbn [set_hb_b hb_b] in T1, T2.
+  assert (0 <= lshares bk (dec_l_inc bk bl delta)) by (apply lshares_nonneg; [destruct Hsv; assumption|unfold dec_l_inc; lia]).
+  assert (0 <= ashares bk (dec_a_dec bk bl delta)).
+  { apply ashares_nonneg; [destruct Hsv; assumption|]. unfold dec_a_dec.
+    assert (0 <= bl_a bl * b_asv bk / ONE) by (apply Z.div_pos; [destruct Hsv; nia|apply ONE_pos]). lia. }
+  split; [eapply hb_ok_step; [exact Hok|eapply static_decrease; eauto|assumption|assumption|lia|lia]|].
+  split; [exact Wbl2|]. split; [exact N1|]. repeat split; try assumption; lia.
+Qed.
+Lemma inc_step hb bk bl now delta t bk' bl' :
+  hb_ok (set_hb_b bk hb) -> wf_bal bl -> 0 <= delta -> bl_l bl <= b_tls bk ->
+  increase_balance bk bl now delta t = Ok (bk', bl') ->
+  hb_ok (set_hb_b bk' hb) /\ wf_bal bl' /\ NAV bk' - NAV bk <= delta * ONE /\
+  b_asv bk' = b_asv bk /\ b_lsv bk' = b_lsv bk /\ b_tls bk' <= b_tls bk /\ b_tas bk <= b_tas bk' /\
+  b_ins bk' = b_ins bk /\ b_grp bk' = b_grp bk /\ b_prog bk' = b_prog bk /\
+  bl_active bl' = bl_active bl /\ bl_bank bl' = bl_bank bl.
+Proof.
+  intros Hok Wbl Hd Ll Hinc. pose proof (hb_ok_sv _ Hok) as Hsv. cbn [set_hb_b hb_b] in Hsv.
+  destruct (NAV_increase _ _ _ _ _ _ _ Hsv Wbl Hd Hinc) as (N1 & _ & Wbl2).
+  pose proof (increase_balance_inv _ _ _ _ _ _ _ Hsv Wbl Hd Hinc) as F.
+  destruct (if_sv _ _ _ _ _ _ F) as [S1 S2]. destruct (if_fees _ _ _ _ _ _ F) as (I2 & G2 & P2).
+  destruct (if_meta _ _ _ _ _ _ F) as (M1 & M2 & _).
+  pose proof (if_a _ _ _ _ _ _ F) as Fa. pose proof (if_l _ _ _ _ _ _ F) as Fl.
+  pose proof (if_tas _ _ _ _ _ _ F) as Fta. pose proof (if_tls _ _ _ _ _ _ F) as Ftl.
+  destruct Wbl as [Wa Wl]. pose proof Wbl2 as [Wa2 Wl2]. destruct (hb_ok_tot _ Hok) as (T1 & T2). cbn [set_hb_b hb_b] in T1, T2.
+  assert (0 <= ashares bk (inc_a_inc bk bl delta)) by (apply ashares_nonneg; [destruct Hsv; assumption|unfold inc_a_inc; lia]).
+  assert (0 <= lshares bk (inc_l_dec bk bl delta)).
+  { apply lshares_nonneg; [destruct Hsv; assumption|]. unfold inc_l_dec.
+    assert (0 <= bl_l bl * b_lsv bk / ONE) by (apply Z.div_pos; [destruct Hsv; nia|apply ONE_pos]). lia. }
+  split; [eapply hb_ok_step; [exact Hok|eapply static_increase; eauto|assumption|assumption|lia|lia]|].
+  split; [exact Wbl2|]. split; [exact N1|]. repeat split; try assumption; lia.
+Qed.
+
+Lemma bank_pk_neq a b : a <> b -> bank_pk a <> bank_pk b.
+Proof. intros H E. apply bank_pk_inj in E. congruence. Qed.
+
+Lemma find_or_create_pos_le2 k bk la now i la1 ta tl k' :
+  wrapper_find_or_create k bk la now = Ok (i, la1) -> pos_le2 ta tl k' la -> 0 <= ta -> 0 <= tl -> pos_le2 ta tl k' la1.
+Proof.
+  unfold wrapper_find_or_create. intros H Hp Ta Tl. destruct (find_active k la).
+  - apply pair_ok in H as [_ <-]. exact Hp.
+  - apply bind_ok in H as (u & _ & H). destruct (find_idx _ la 0); [|discriminate].
+    apply pair_ok in H as [_ <-]. apply pos_le2_set_nth; [exact Hp|]. cbn [bl_a bl_l]. lia.
+Qed.
+
+Lemma liquidate_gap w liqor liqee ab lb amount ha hl ha' hl' ee er ee3 er3 :
+  liquidate_facts w liqor liqee ab lb amount ha hl ha' hl' ee er ee3 er3 ->
+  hb_ok ha -> hb_ok hl ->
+  (forall ac, nth_res liqor (set_nth liqee (sort_acct ee) (hw_accts w)) = Ok ac ->
+      Forall wf_bal (ha_la ac) /\ pos_le (hb_b ha) (bank_pk ab) (ha_la ac) /\ pos_le (hb_b hl) (bank_pk lb) (ha_la ac)) ->
+  Forall wf_bal (ha_la ee) -> pos_le (hb_b ha) (bank_pk ab) (ha_la ee) -> pos_le (hb_b hl) (bank_pk lb) (ha_la ee) ->
+  hb_ok ha' /\ hb_ok hl' /\ Forall wf_bal (ha_la ee3) /\ Forall wf_bal (ha_la er3) /\
+  gap ha - acc_slack w ha - sv_slack w ha <= gap ha' /\
+  gap hl - acc_slack w hl - sv_slack w hl <= gap hl'.
+Proof.
+  intros (ba1 & bl1 & er0 & q_liq & q_fin & ins_fee & i1 & la1 & b1 & bl2 & b1' & i2 & b2 & ba2 & b2' & i3 & la3 & b3 & ba3 & b3' &
+          i4 & b4 & bl3 & b4' & ins_n & f & ba4 & bl5 & F) Hoka Hokl Her0 Wee Pea Pel.
+  cbv zeta in F.
+  destruct F as (Hamt & Hne & Hacca & Haccl & Hr0 & Hif & Hif0 & Hqf0 & Hloc1 & Hb1 & Hdec1 & Hi2 & Hb2 & Hdec2 & Hloc3 & Hb3 & Hinc3 &
+                 Hi4 & Hb4 & Hinc4 & Hinsn & Hvle & Hf & Hrange & Hca & Hcl & -> & -> & -> & ->).
+  destruct (Her0 _ Hr0) as (Wer0 & Pra & Prl).
+  unfold acc_slack, sv_slack. rewrite Hacca, Haccl.
+  destruct (after_accrue _ _ _ _ _ Hoka Pea Hacca) as (Hoka1 & Hsa & Pea1 & Taa & Tla & Hsva).
+  destruct (after_accrue _ _ _ _ _ Hokl Pel Haccl) as (Hokl1 & Hsl & Pel1 & Tal & Tll & Hsvl).
+  destruct (after_accrue _ _ _ _ _ Hoka Pra Hacca) as (_ & _ & Pra1 & _).
+  destruct (after_accrue _ _ _ _ _ Hokl Prl Haccl) as (_ & _ & Prl1 & _).
+  apply usub_inv in Hif as [-> _].
+  assert (Hq1 : 0 <= q_liq) by lia.
+  assert (Ham0 : 0 <= of_int amount) by (unfold of_int; pose proof ONE_pos; nia).
+  assert (Wee1 : Forall wf_bal (ha_la (sort_acct ee))) by (unfold sort_acct; cbn [ha_la]; apply Forall_sort; exact Wee).
+  assert (Pea1s : pos_le ba1 (bank_pk ab) (ha_la (sort_acct ee))) by (unfold sort_acct; cbn [ha_la]; apply pos_le2_sort; exact Pea1).
+  assert (Pel1s : pos_le bl1 (bank_pk lb) (ha_la (sort_acct ee))) by (unfold sort_acct; cbn [ha_la]; apply pos_le2_sort; exact Pel1).
+  pose proof (bank_pk_neq _ _ Hne) as Hpkne.
+  (* leg 1: liquidator's position in the liability bank decreases by q_liq *)
+  destruct (located_le2 _ _ _ _ _ _ true _ _ _ Hloc1 Hb1 Wer0 Prl1 Tal Tll) as (Wb1 & Wla1 & L1a & L1l & A1 & K1 & _).
+  destruct (dec_step _ _ _ _ _ _ _ _ Hokl1 Wb1 Hq1 L1a Hdec1) as (Hokl2 & Wb1' & Nl2 & El2a & El2l & Tl2 & Ta2 & Il2 & Gl2 & Pl2 & Ab1 & Kb1).
+  (* leg 2: liquidatee's asset position decreases by the seized amount *)
+  destruct (located_le2 _ ba1 _ _ _ (hw_now w) false _ _ _ (find_as_located _ _ _ Hi2) Hb2 Wee1 Pea1s Taa Tla) as (Wb2 & _ & L2a & L2l & A2 & K2 & _).
+  destruct (dec_step _ _ _ _ _ _ _ _ Hoka1 Wb2 Ham0 L2a Hdec2) as (Hoka2 & Wb2' & Na2 & Ea2a & Ea2l & Tla2 & Taa2 & Ia2 & Ga2 & Pa2 & Ab2 & Kb2).
+  (* leg 3: liquidator's position in the asset bank increases by the seized amount *)
+  assert (Wer1 : Forall wf_bal (set_nth i1 b1' la1)) by (apply Forall_set_nth; assumption).
+  assert (Pr3 : pos_le2 (b_tas ba1) (b_tls ba1) (bank_pk ab) (set_nth i1 b1' la1)).
+  { apply pos_le2_set_nth; [eapply find_or_create_pos_le2; [exact Hloc1|exact Pra1|exact Taa|exact Tla]|].
+    intros _ Hk. exfalso. rewrite Kb1, K1 in Hk. congruence. }
+  destruct (located_le2 _ _ _ _ _ _ true _ _ _ Hloc3 Hb3 Wer1 Pr3 Taa Tla) as (Wb3 & Wla3 & L3a & L3l & A3 & K3 & _).
+  destruct (inc_step _ _ _ _ _ _ _ _ Hoka2 Wb3 Ham0 ltac:(lia) Hinc3) as (Hoka3 & Wb3' & Na3 & Ea3a & Ea3l & Tla3 & Taa3 & Ia3 & Ga3 & Pa3 & _).
+  (* leg 4: liquidatee's liability decreases by q_fin *)
+  assert (Wee2 : Forall wf_bal (set_nth i2 b2' (ha_la (sort_acct ee)))) by (apply Forall_set_nth; assumption).
+  assert (Pe4 : pos_le2 (b_tas bl1) (b_tls bl1) (bank_pk lb) (set_nth i2 b2' (ha_la (sort_acct ee)))).
+  { apply pos_le2_set_nth; [exact Pel1s|]. intros _ Hk. exfalso. rewrite Kb2, K2 in Hk. congruence. }
+  cbn [ha_la] in Hi4, Hb4.
+  destruct (located_le2 _ bl2 _ _ _ (hw_now w) false _ _ _ (find_as_located _ _ _ Hi4) Hb4 Wee2 Pe4 Tal Tll) as (Wb4 & _ & L4a & L4l & _).
+  destruct (inc_step _ _ _ _ _ _ _ _ Hokl2 Wb4 Hqf0 ltac:(lia) Hinc4) as (Hokl3 & Wb4' & Nl3 & El3a & El3l & Tll3 & Tal3 & Il3 & Gl3 & Pl3 & _).
+  (* bookkeeping *)
+  destruct (hb_ok_cache _ _ _ _ _ Hoka3 Hca) as (Hoka4 & Na4).
+  assert (Hokl4 : hb_ok (set_hb_b (set_b_ins (b_ins bl3 + ffrac (q_liq - q_fin)) bl3) hl)).
+  { destruct (hb_ok_tot _ Hokl3) as (X1 & X2). cbn [set_hb_b hb_b] in X1, X2.
+    eapply hb_ok_step; [exact Hokl3|apply static_set_ins|reflexivity|reflexivity|exact X1|exact X2]. }
+  destruct (hb_ok_cache _ _ _ _ _ Hokl4 Hcl) as (Hokl5 & Nl5).
+  destruct (ffrac_split _ _ Hif0 Hinsn) as (Hsplit & Hfr0 & Hn0).
+  split; [exact Hoka4|]. split; [exact Hokl5|].
+  split; [cbn [ha_la]; apply Forall_set_nth; assumption|].
+  split; [unfold sort_acct; cbn [ha_la]; apply Forall_sort; apply Forall_set_nth; assumption|].
+  pose proof ONE_pos as HO.
+  split.
+  - unfold gap, gapb. cbn [set_hb_b hb_b hb_vault]. rewrite Na4. lia.
+  - unfold gap, gapb. cbn [set_hb_b set_hb_vault set_hb_insv hb_b hb_vault]. rewrite Nl5.
+    assert (NAV (set_b_ins (b_ins bl3 + ffrac (q_liq - q_fin)) bl3) = NAV bl3 + ffrac (q_liq - q_fin) * ONE).
+    { unfold NAV, Dv, Lv, Fv. cbn [set_b_ins b_tas b_asv b_tls b_lsv b_ins b_grp b_prog]. lia. }
+    nia.
 Qed.
